@@ -1,6 +1,7 @@
 import TLVerif.Util.Hex
 import TLVerif.Tlomig.GenTlo
 import TLVerif.Tlomig.Mig
+import TLVerif.Tlomig.TlsWf
 /-! Line-protocol handler of the `tlomig` family (C26 TLO, C27 migration): every line is a self-contained case. -/
 namespace TLVerif.Tlomig
 open TLVerif.Util TLVerif.Prim
@@ -25,6 +26,7 @@ def handleTlo (ts : String) (ast : String) : String :=
         | some bs =>
           -- per-instance certificate of the byte round trip for the whole value (proved in general for type entries)
           let desc := (out.toSexp (ts == 0)).print
+          if !wfSchema out then "ok " ++ hexOfBytes bs ++ " MODEL-NOT-WF" else
           match decodeSchema bs with
           | .ok (back, []) =>
             if (back.toSexp (ts == 0)).print == desc && encSchema back == some bs then "ok " ++ hexOfBytes bs ++ " " ++ desc
